@@ -357,7 +357,7 @@ class Ctx:
         group_start(line_json_text) -> True marks lines where a part may begin (e.g. a corpus or
         reset event); default: every line. Returns (accepted, rejected) with original line numbers."""
         import concurrent.futures
-        lines = open(trace_path).read().splitlines()
+        lines = [ln for ln in open(trace_path).read().split("\n") if ln]   # not splitlines(): U+0085/U+2028 may occur raw in JSON
         head, body = lines[:header_lines], lines[header_lines:]
         if not body:
             raise Inconclusive("empty trace " + trace_path)
